@@ -69,6 +69,35 @@ pub fn seq<C>(steps: &[C], f: impl Fn(&C) -> CaseResult) -> CaseResult {
     pass(true, format!("sequence-of-{}", steps.len()))
 }
 
+/// Run `f` over the steps *simultaneously*, one thread per step, released together by a barrier. Used inside cold-start cases so that
+/// several threads make their first library call at the same moment (racy lazy initialisation). The first failure (by step index) wins.
+pub fn par<C: Sync>(steps: &[C], f: impl Fn(&C) -> CaseResult + Sync) -> CaseResult {
+    let barrier = std::sync::Barrier::new(steps.len().max(1));
+    let results: Vec<CaseResult> = std::thread::scope(|s| {
+        let hs: Vec<_> = steps
+            .iter()
+            .map(|c| {
+                let (b, f) = (&barrier, &f);
+                s.spawn(move || {
+                    b.wait();
+                    match catch(|| f(c)) {
+                        Ok(r) => r,
+                        Err(p) => Err(Fail { key: format!("harness-uncaught-panic site={}", panic_site(&p)), detail: p }),
+                    }
+                })
+            })
+            .collect();
+        hs.into_iter().map(|h| h.join().unwrap_or_else(|_| Err(Fail { key: "harness-thread-join".into(), detail: "".into() }))).collect()
+    });
+    for (i, r) in results.into_iter().enumerate() {
+        r.map_err(|mut e| {
+            e.detail = format!("thread {} of {} started together: {}", i, steps.len(), e.detail);
+            e
+        })?;
+    }
+    pass(true, format!("concurrent-{}", steps.len()))
+}
+
 pub fn pass(nt: bool, class: impl Into<String>) -> CaseResult {
     Ok(Pass {
         nt,
